@@ -784,6 +784,13 @@ impl TransactionBuilder {
             ));
         }
         let col_input_value: Value = collateral.total_value()?;
+        let return_assets = collateral_return.amount.multiasset.clone().unwrap_or(MultiAsset::new());
+        let input_assets = col_input_value.multiasset.clone().unwrap_or(MultiAsset::new());
+        if !(return_assets <= input_assets) {
+            return Err(JsError::from_str(
+                "Collateral return cannot contain assets that the collateral inputs do not hold!",
+            ));
+        }
         let total_col: Value = col_input_value.checked_sub(&collateral_return.amount())?;
         if total_col.multiasset.is_some() {
             return Err(JsError::from_str(
